@@ -16,6 +16,8 @@ import (
 
 // ---- one Stream() attempt against the simulated master (L2) ---------------------------------------
 
+var attemptSeq int32
+
 type attemptOpts struct {
 	failAt       int           // handler call index that fails (-1: never)
 	handlerDelay time.Duration // per call
@@ -249,6 +251,29 @@ func runAttempt(s *gobinlog.Streamer, m *simMaster, h *hist, mapper *tblMapper, 
 	if o.cancelLate {
 		cancel()
 	}
+	// "within bounded time of its return ... no goroutine started by the library remains": whether or not the caller ever
+	// asks Error() for the reason. Every other attempt looks for leftovers BEFORE the first Error() call (a reader that
+	// only gets away once somebody drains the reason channel is a leftover).
+	leakCheck := func(wait time.Duration) []string {
+		deadline := time.Now().Add(wait)
+		for {
+			var left []string
+			for id, top := range libraryGoroutines() {
+				if _, was := preexisting[id]; !was {
+					left = append(left, top)
+				}
+			}
+			sort.Strings(left)
+			if len(left) == 0 || time.Now().After(deadline) {
+				return left
+			}
+			time.Sleep(2 * time.Millisecond)
+		}
+	}
+	var leftBeforeError []string
+	if atomic.AddInt32(&attemptSeq, 1)%2 == 0 && res.streamRet != "hang" {
+		leftBeforeError = leakCheck(1500 * time.Millisecond)
+	}
 	// Error() must return
 	ed := make(chan error, 1)
 	t1 := time.Now()
@@ -317,19 +342,11 @@ func runAttempt(s *gobinlog.Streamer, m *simMaster, h *hist, mapper *tblMapper, 
 		}
 	}
 	// no goroutine started by the library may remain
-	deadline := time.Now().Add(1500 * time.Millisecond)
-	for {
-		res.leaked = nil
-		for id, top := range libraryGoroutines() {
-			if _, was := preexisting[id]; !was {
-				res.leaked = append(res.leaked, top)
-			}
+	res.leaked = leakCheck(1500 * time.Millisecond)
+	if len(res.leaked) == 0 && len(leftBeforeError) > 0 {
+		for _, l := range leftBeforeError {
+			res.leaked = append(res.leaked, l+" (until Error() was called)")
 		}
-		sort.Strings(res.leaked)
-		if len(res.leaked) == 0 || time.Now().After(deadline) {
-			break
-		}
-		time.Sleep(2 * time.Millisecond)
 	}
 	if os.Getenv("VH_TIMING") != "" {
 		fmt.Fprintf(os.Stderr, "timing: after=%v leaked=%v closed=%v\n", time.Since(tA), res.leaked, res.peerClosed)
